@@ -1206,6 +1206,17 @@ def sym_attr(interp, obj, name):
         if name == "flags":
             o = interp.ctx.obj("ArrFlags", {"arr": obj, "writeable": obj.writeable})
             return o
+        if name == "setflags":
+            # ndarray.setflags(write=...): the array (not its base) becomes read-only / writable
+            def _setflags(interp, arr, write=None, **kw):
+                if write is not None:
+                    if not isinstance(write, bool):
+                        raise eng.Unsupported("symbolic writeable flag")
+                    if write and arr.base is not None and not arr.base.writeable:
+                        raise eng.PyRaise(ValueError, ("cannot set WRITEABLE flag to True of this array",))
+                    arr.writeable = write
+                return None
+            return eng.BoundModel(_setflags, obj, name)
         m = ARR_METHODS.get(name)
         if m is not None:
             return eng.BoundModel(m, obj, name)
@@ -1231,6 +1242,9 @@ def sym_attr(interp, obj, name):
             return eng.BoundModel(m, obj, name)
         if name == "shape" and getattr(obj, "shape", None) is not None:
             return obj.shape
+        if name == "setflags" and getattr(obj, "pytype", None) is None:
+            # an opaque array value: its flags are not modelled (it has no modelled aliases)
+            return eng.BoundModel(lambda interp, o, *a, **k: None, obj, name)
     return NotImplemented
 
 
